@@ -216,7 +216,7 @@ func (c Case) judgeHandshake(m *material, e expectation, l *live, cfg *tls.Confi
 		if len(res.peer) != 0 {
 			return kit.Failf("%s: no client certificate supplied, the server saw %d", what, len(res.peer))
 		}
-	} else if len(res.peer) != 1 || !bytes.Equal(res.peer[0], m.certs[e.leaf].Raw) {
+	} else if wantN := map[bool]int{false: 1, true: 2}[e.chain]; len(res.peer) != wantN || !bytes.Equal(res.peer[0], m.certs[e.leaf].Raw) || (e.chain && !bytes.Equal(res.peer[1], m.cas["ca"].Raw)) {
 		return kit.Failf("%s: the server must see exactly the supplied %s client certificate, it saw %d certificate(s)", what, e.leaf, len(res.peer))
 	}
 	return nil
